@@ -61,7 +61,7 @@ def cases(rng, tier, X):
             ops.append('rx 0 %s' % F.discover(M, 5, 6, tos=rng.choice([0, 1])))
         out.append(('chg%d' % k, ops))
     # universal traffic (every frame type / sender / path / service / boundary value, 1..3 interfaces): this check's predicate on it
-    for k in range(60 if tier == 'quick' else 6000):
+    for k in range(150 if tier == 'quick' else 6000):
         out.append(('u%d' % k, F.universal(rng)))
         if k % 2 == 0:
             # the same kind of traffic with every kind of platform fault injected at random points
